@@ -29,7 +29,7 @@ type c04Case struct {
 	Seq     []string `json:"second_phase_replies"` // ok fail noreply rst cancel+ok cancel+noreply
 	Retry   int      `json:"retry_setting"`
 	Cancel  string   `json:"cancel"` // "", before_begin, in_business, phase2
-	Nested  string   `json:"nested"` // "", "participant-nil", "participant-error"
+	Nested  string   `json:"nested"` // "", "participant-nil", "participant-error", "participant-panic"
 }
 
 func (c *c04Case) shape() string {
@@ -198,6 +198,7 @@ func c04Cases(commitRetry int, tier string) []*c04Case {
 		// joined (participant) scopes must never end the transaction
 		add(c04Case{Outcome: o, Begin: "ok", Seq: []string{"ok"}, Nested: "participant-nil"})
 		add(c04Case{Outcome: o, Begin: "ok", Seq: []string{"ok"}, Nested: "participant-error"})
+		add(c04Case{Outcome: o, Begin: "ok", Seq: []string{"ok"}, Nested: "participant-panic"})
 	}
 	return cs
 }
@@ -368,6 +369,8 @@ func c04Batch(r *vc.Run, retry int, cases []*c04Case, concurrent bool, name stri
 			sc.Steps = []gtxStep{{Op: "scope", Scope: &gtxScope{Name: c.Name + "-inner", TimeoutMs: 60000, Outcome: "nil", Label: "inner", FreshCtx: true}}}
 		case "participant-error":
 			sc.Steps = []gtxStep{{Op: "scope", Scope: &gtxScope{Name: c.Name + "-inner", TimeoutMs: 60000, Outcome: "error", Label: "inner", FreshCtx: true}}}
+		case "participant-panic":
+			sc.Steps = []gtxStep{{Op: "scope", Scope: &gtxScope{Name: c.Name + "-inner", TimeoutMs: 60000, Outcome: "panic", Label: "inner", FreshCtx: true}}}
 		}
 		var res scopeResult
 		errs[i] = ch.Call("gtx", sc, &res)
@@ -493,6 +496,14 @@ func c04Judge(r *vc.Run, c *c04Case, res *scopeResult, evs []*faketc.Event) {
 	}
 	if len(xids) > 1 {
 		viol("foreign-xid", fmt.Sprintf("second-phase requests for %d different xids", len(xids)))
+	}
+	// a panic of the business function of a joined scope surfaces as that scope's error, it does not escape
+	if c.Nested == "participant-panic" && len(res.Steps) > 0 && res.Steps[0].Scope != nil {
+		if in := res.Steps[0].Scope; in.Returned == "panic" {
+			viol("panic-escaped", "the business function of a joined scope panicked and the panic escaped that scope's WithGlobalTx: "+clipStr(in.PanicVal, 200))
+		} else if in.Returned != "error" {
+			viol("panic-swallowed", "the business function of a joined scope panicked but its WithGlobalTx returned "+in.Returned)
+		}
 	}
 	if c.Nested != "" && innerReqs > 0 {
 		viol("participant-ended", fmt.Sprintf("the joined inner scope sent %d requests of its own to the coordinator", innerReqs))
